@@ -52,6 +52,9 @@ class Snapshotter(object):
     def __init__(self):
         self.index = {}
         self.keep = []
+        # private attributes an object had when it was first seen: a private attribute that appears later is
+        # treated as a cache (invisible state) and not rendered; a change of an existing one is a change
+        self.first_private = {}
 
     def idx(self, o):
         k = id(o)
@@ -84,8 +87,11 @@ class Snapshotter(object):
             seen.add(key)
             rec = {"cls": type(o).__name__}
             d = o.__dict__
+            priv = self.first_private.setdefault(key, frozenset(n for n in d if n.startswith("_")))
             for name in sorted(d):
                 if name in IGNORED_ATTRS:
+                    continue
+                if name.startswith("_") and name not in priv:
                     continue
                 v = d[name]
                 if callable(v) and not _is_tracked(v):
